@@ -30,7 +30,7 @@ ASSUMPTIONS = [
 OBLIGATIONS = {"acyclic": 300, "cyclic": 100, "field:default": 100,
                "field:negatives": 100, "field:zeros": 50, "has-upstream": 200,
                "terminal-cell": 200, "reduced-max": 20, "random-forest": 5,
-               "inputs-unaltered": 300}
+               "inputs-unaltered": 300, "dtype-variant": 100}
 
 
 def mods():
@@ -38,16 +38,27 @@ def mods():
     return g
 
 
-def make_grids(codes, field, nodata):
+FD_DTYPES = {"i8": np.int64, "i4": np.int32, "u1": np.uint8, "f8": np.float64}
+TA_DTYPES = {"f8": np.float64, "f4": np.float32, "i8": np.int64}
+
+
+def make_grids(codes, field, nodata, fd_dtype="i8", ta_dtype="f8"):
     g = mods()
     codes = np.asarray(codes, dtype=np.int64)
     nr, nc = codes.shape
-    fd = g.Grid("fd", nc, nr, dtype=np.int64)
+    fdt = FD_DTYPES[fd_dtype]
+    if fd_dtype == "u1" and (codes.min() < 0 or codes.max() > 255):
+        fdt = np.int64
+    fd = g.Grid("fd", nc, nr, dtype=fdt)
     fd.data = codes
     ta = None
     if field is not None:
-        ta = g.Grid("ta", nc, nr, dtype=np.float64, nodata=nodata)
-        ta.data = np.asarray(field, dtype=np.float64)
+        tdt = TA_DTYPES[ta_dtype]
+        f = np.asarray(field, dtype=np.float64)
+        if ta_dtype == "i8" and not np.all(f == np.round(f)):
+            tdt = np.float64
+        ta = g.Grid("ta", nc, nr, dtype=tdt, nodata=nodata)
+        ta.data = f
     return fd, ta
 
 
@@ -70,7 +81,12 @@ def run_case(ctx, case):
     model = FlowGraph(codes.tolist())
     cyc = model.has_cycle()
     ctx.evaluated()
-    fd, ta = make_grids(codes, field, nodata)
+    fd, ta = make_grids(codes, field, nodata, case.get("fd_dtype", "i8"),
+                        case.get("ta_dtype", "f8"))
+    if case.get("fd_dtype", "i8") != "i8" or case.get("ta_dtype", "f8") != "f8":
+        ctx.tag("dtype-variant")
+    if ta is not None:
+        nodata = float(ta.nodata)        # as stored in the grid's own type
     fd_before = fd.data.copy()
     ta_before = None if ta is None else ta.data.copy()
     if cyc:
@@ -85,8 +101,11 @@ def run_case(ctx, case):
         return
     ctx.check("accumulate.no-error", True)
     ctx.tag("inputs-unaltered")
-    same = np.array_equal(fd.data, fd_before) and \
-        (ta is None or np.array_equal(ta.data, ta_before, equal_nan=True))
+    same = np.array_equal(np.asarray(fd.data, dtype=np.float64),
+                          np.asarray(fd_before, dtype=np.float64)) and \
+        (ta is None or np.array_equal(np.asarray(ta.data, dtype=np.float64),
+                                      np.asarray(ta_before, dtype=np.float64),
+                                      equal_nan=True))
     ctx.check("accumulate.inputs-unaltered", bool(same), "accumulate|alters-inputs",
               case, lambda: {"flowdir_after": fd.data.tolist(),
                              "field_after": None if ta is None else ta.data.tolist()})
@@ -150,7 +169,9 @@ def run(ctx):
             for nm, f, nd in flds:
                 case = {"kind": "acc", "codes": codes.tolist(),
                         "field": None if f is None else f.tolist(), "nodata": nd,
-                        "fieldname": nm}
+                        "fieldname": nm,
+                        "fd_dtype": ["i8", "i4", "u1", "f8"][idx % 4],
+                        "ta_dtype": ["f8", "f4", "i8"][(idx // 4) % 3]}
                 run_case(ctx, case)
                 if idx % 7919 == 0 and nm == "negatives":
                     ctx.sample(case)
